@@ -688,6 +688,137 @@ func msgConfirmFacts() (unpacks, compares bool) {
 	return unpacks, compares
 }
 
+// sigNormalisation: what <fn> (EthAddressFromSignature / TronAddressFromSignature) does to the signature before handing
+// it to crypto.SigToPub: the minimum-length guard `if len(signature) < N { return ... }` and the statement(s) that
+// write signature[64].  Recognised writers:
+//
+//	if signature[64] == a || signature[64] == b ... { signature[64] -= d }   -> (VSubIf [a; b; ...] d)
+//	signature[64] %= m                                                      -> (VMod m)
+//	(none)                                                                  -> VNone
+//
+// any other write to the signature slice is a hard error.  Returns (minlen, vnorm term).
+func sigNormalisation(path, fn string) (int, string) {
+	_, f := parseFile(path)
+	fd := findFunc(f, "", fn)
+	if fd == nil || fd.Body == nil || len(fd.Type.Params.List) != 2 || len(fd.Type.Params.List[1].Names) != 1 {
+		die("%s: %s(hash, signature) not found", path, fn)
+	}
+	sig := fd.Type.Params.List[1].Names[0].Name
+	isV := func(e ast.Expr) bool { // signature[64]
+		ix, ok := e.(*ast.IndexExpr)
+		if !ok {
+			return false
+		}
+		id, ok := ix.X.(*ast.Ident)
+		lit, ok2 := ix.Index.(*ast.BasicLit)
+		return ok && ok2 && id.Name == sig && lit.Value == "64"
+	}
+	intLit := func(e ast.Expr) (int, bool) {
+		l, ok := e.(*ast.BasicLit)
+		if !ok || l.Kind != token.INT {
+			return 0, false
+		}
+		n, err := strconv.Atoi(l.Value)
+		return n, err == nil
+	}
+	minlen := -1
+	norm := "VNone"
+	seenRecover := false
+	var eqVals func(e ast.Expr) ([]string, bool)
+	eqVals = func(e ast.Expr) ([]string, bool) {
+		b, ok := e.(*ast.BinaryExpr)
+		if !ok {
+			return nil, false
+		}
+		switch b.Op {
+		case token.LOR:
+			l, ok1 := eqVals(b.X)
+			r, ok2 := eqVals(b.Y)
+			return append(l, r...), ok1 && ok2
+		case token.EQL:
+			if n, ok := intLit(b.Y); ok && isV(b.X) {
+				return []string{strconv.Itoa(n)}, true
+			}
+		}
+		return nil, false
+	}
+	for _, st := range fd.Body.List {
+		// does the statement write to the signature slice at all?
+		writes := false
+		ast.Inspect(st, func(n ast.Node) bool {
+			switch x := n.(type) {
+			case *ast.AssignStmt:
+				for _, l := range x.Lhs {
+					if ix, ok := l.(*ast.IndexExpr); ok {
+						if id, ok := ix.X.(*ast.Ident); ok && id.Name == sig {
+							writes = true
+						}
+					}
+					if id, ok := l.(*ast.Ident); ok && id.Name == sig {
+						writes = true
+					}
+				}
+			case *ast.IncDecStmt:
+				if ix, ok := x.X.(*ast.IndexExpr); ok {
+					if id, ok := ix.X.(*ast.Ident); ok && id.Name == sig {
+						writes = true
+					}
+				}
+			case *ast.CallExpr:
+				if p, sname, ok := sel(x.Fun); ok && p == "crypto" && sname == "SigToPub" {
+					if len(x.Args) != 2 {
+						die("%s: %s: crypto.SigToPub shape", path, fn)
+					}
+					if id, ok := x.Args[1].(*ast.Ident); !ok || id.Name != sig {
+						die("%s: %s: crypto.SigToPub is not given the %s slice itself", path, fn, sig)
+					}
+					seenRecover = true
+				}
+			}
+			return true
+		})
+		if ifs, ok := st.(*ast.IfStmt); ok && ifs.Init == nil && ifs.Else == nil {
+			// length guard
+			if b, ok := ifs.Cond.(*ast.BinaryExpr); ok && b.Op == token.LSS {
+				if c, ok := b.X.(*ast.CallExpr); ok && len(c.Args) == 1 {
+					if f, ok := c.Fun.(*ast.Ident); ok && f.Name == "len" {
+						if a, ok := c.Args[0].(*ast.Ident); ok && a.Name == sig {
+							if n, ok := intLit(b.Y); ok && len(ifs.Body.List) == 1 {
+								if _, isRet := ifs.Body.List[0].(*ast.ReturnStmt); isRet && !seenRecover {
+									minlen = n
+									continue
+								}
+							}
+						}
+					}
+				}
+			}
+			// if signature[64] == a || ... { signature[64] -= d }
+			if vals, ok := eqVals(ifs.Cond); ok && len(ifs.Body.List) == 1 {
+				if as, ok := ifs.Body.List[0].(*ast.AssignStmt); ok && as.Tok == token.SUB_ASSIGN && len(as.Lhs) == 1 && isV(as.Lhs[0]) {
+					if d, ok := intLit(as.Rhs[0]); ok && norm == "VNone" && !seenRecover {
+						norm = "(VSubIf [" + strings.Join(vals, "; ") + "] " + strconv.Itoa(d) + ")"
+						continue
+					}
+				}
+			}
+		}
+		if as, ok := st.(*ast.AssignStmt); ok && as.Tok == token.REM_ASSIGN && len(as.Lhs) == 1 && isV(as.Lhs[0]) {
+			if m, ok := intLit(as.Rhs[0]); ok && m > 0 && norm == "VNone" && !seenRecover {
+				norm = "(VMod " + strconv.Itoa(m) + ")"
+				continue
+			}
+		}
+		if writes {
+			die("%s: %s: a write to the signature that the translator does not recognise (at %v)", path, fn, st.Pos())
+		}
+	}
+	if minlen < 0 || !seenRecover {
+		die("%s: %s: length guard `if len(%s) < N { return }` or crypto.SigToPub(..., %s) not found", path, fn, sig, sig)
+	}
+	return minlen, norm
+}
+
 // genesisOwnerByExternal: how InitGenesis (x/crosschain/keeper/genesis.go) finds the oracle an imported batch /
 // oracle-set confirm belongs to: by comparing the confirm's BridgerAddress with every oracle record's (false, the
 // tree as it is) or through GetOracleAddrByExternalAddr(ctx, confirm.ExternalAddress) (true).  Mixed shapes fail.
@@ -1089,6 +1220,11 @@ func main() {
 	unpacks, compares := msgConfirmFacts()
 	fmt.Fprintf(&b, "\n(* x/crosschain/types: MsgConfirm implements UnpackInterfaces / has a ValidateBasic comparing the two bridger addresses *)\n")
 	fmt.Fprintf(&b, "Definition msgconfirm_unpacks : bool := %v.\nDefinition msgconfirm_vb_compares_bridger : bool := %v.\n", unpacks, compares)
+
+	ethMin, ethNorm := sigNormalisation(filepath.Join(repo(), "x/crosschain/types/eth_signer.go"), "EthAddressFromSignature")
+	tronMin, tronNorm := sigNormalisation(filepath.Join(repo(), "x/tron/types/signer.go"), "TronAddressFromSignature")
+	fmt.Fprintf(&b, "\n(* EthAddressFromSignature / TronAddressFromSignature: minimum length, and what is done to byte 64 before crypto.SigToPub *)\n")
+	fmt.Fprintf(&b, "Definition eth_sig_minlen : Z := %d.\nDefinition eth_vnorm : vnorm := %s.\nDefinition tron_sig_minlen : Z := %d.\nDefinition tron_vnorm : vnorm := %s.\n", ethMin, ethNorm, tronMin, tronNorm)
 
 	fmt.Fprintf(&b, "\n(* x/crosschain/keeper/genesis.go InitGenesis: the owner of an imported confirm is looked up by its external address (true) or by its bridger address (false) *)\n")
 	fmt.Fprintf(&b, "Definition genesis_confirm_owner_by_external : bool := %v.\n", genesisOwnerByExternal())
